@@ -544,9 +544,198 @@ func (c *TermCtx) bvbin(op string, a, b *Term) *Term {
 	return c.mk(op, a.sort, a, b)
 }
 
-func (c *TermCtx) Add(a, b *Term) *Term  { return c.bvbin("bvadd", a, b) }
-func (c *TermCtx) Sub(a, b *Term) *Term  { return c.bvbin("bvsub", a, b) }
-func (c *TermCtx) Mul(a, b *Term) *Term  { return c.bvbin("bvmul", a, b) }
+func (c *TermCtx) Add(a, b *Term) *Term { return c.linear(a, b, false) }
+func (c *TermCtx) Sub(a, b *Term) *Term { return c.linear(a, b, true) }
+
+// linear normalises sums/differences: flattens nested bvadd/bvsub/bvneg, cancels equal
+// terms, folds constants (all identities of modular arithmetic), and distributes over an
+// ite operand when that makes a branch constant.
+func (c *TermCtx) linear(a, b *Term, sub bool) *Term {
+	if a.sort != b.sort || a.sort.K != SBV {
+		panic(fmt.Sprintf("add/sub sort mismatch %v %v", a.sort, b.sort))
+	}
+	w := a.sort.W
+	if a.IsConst() && b.IsConst() {
+		if sub {
+			return c.bvbin("bvsub", a, b)
+		}
+		return c.bvbin("bvadd", a, b)
+	}
+	coef := map[int]int{}
+	terms := map[int]*Term{}
+	konst := new(big.Int)
+	var walk func(t *Term, sign int, depth int)
+	walk = func(t *Term, sign int, depth int) {
+		if t.IsConst() {
+			if sign > 0 {
+				konst.Add(konst, t.UBig())
+			} else {
+				konst.Sub(konst, t.UBig())
+			}
+			return
+		}
+		if depth < 24 {
+			switch t.op {
+			case "bvadd":
+				walk(t.args[0], sign, depth+1)
+				walk(t.args[1], sign, depth+1)
+				return
+			case "bvsub":
+				walk(t.args[0], sign, depth+1)
+				walk(t.args[1], -sign, depth+1)
+				return
+			case "bvneg":
+				walk(t.args[0], -sign, depth+1)
+				return
+			}
+		}
+		coef[t.id] += sign
+		terms[t.id] = t
+	}
+	walk(a, 1, 0)
+	if sub {
+		walk(b, -1, 0)
+	} else {
+		walk(b, 1, 0)
+	}
+	ids := make([]int, 0, len(coef))
+	for id, k := range coef {
+		if k != 0 {
+			ids = append(ids, id)
+		}
+	}
+	sort.Ints(ids)
+	// distribute over a single ite if it yields a constant branch
+	if len(ids) == 2 {
+		for k := 0; k < 2; k++ {
+			x, y := terms[ids[k]], terms[ids[1-k]]
+			if x.op == "ite" && coef[x.id] != 0 && (coef[x.id] == 1 || coef[x.id] == -1) && (coef[y.id] == 1 || coef[y.id] == -1) && coef[x.id] == -coef[y.id] {
+				if x.args[1] == y || x.args[2] == y || (x.args[1].op == "ite") == false && (sameLinearBase(x.args[1], y) || sameLinearBase(x.args[2], y)) {
+					kc := c.BVBig(w, konst)
+					mk := func(br *Term) *Term {
+						var r *Term
+						if coef[x.id] == 1 {
+							r = c.linear(br, y, true)
+						} else {
+							r = c.linear(y, br, true)
+						}
+						return c.linear(r, kc, false)
+					}
+					return c.Ite(x.args[0], mk(x.args[1]), mk(x.args[2]))
+				}
+			}
+		}
+	}
+	var pos, neg *Term
+	addTo := func(acc *Term, t *Term) *Term {
+		if acc == nil {
+			return t
+		}
+		return c.mk("bvadd", t.sort, acc, t)
+	}
+	for _, id := range ids {
+		k := coef[id]
+		t := terms[id]
+		for k > 0 {
+			pos = addTo(pos, t)
+			k--
+		}
+		for k < 0 {
+			neg = addTo(neg, t)
+			k++
+		}
+	}
+	kc := c.BVBig(w, konst)
+	var res *Term
+	switch {
+	case pos == nil && neg == nil:
+		return kc
+	case pos == nil:
+		if kc.isZero() {
+			res = c.Neg(neg)
+		} else {
+			res = c.mk("bvsub", kc.sort, kc, neg)
+		}
+		return res
+	default:
+		res = pos
+		if neg != nil {
+			res = c.mk("bvsub", res.sort, res, neg)
+		}
+		if !kc.isZero() {
+			// prefer x - K for small negative constants
+			if kc.SBig().Sign() < 0 {
+				res = c.mk("bvsub", res.sort, res, c.BVBig(w, new(big.Int).Neg(kc.SBig())))
+			} else {
+				res = c.mk("bvadd", res.sort, res, kc)
+			}
+		}
+		return res
+	}
+}
+
+// sameLinearBase: do x and y share a summand (so that x-y simplifies)?
+func sameLinearBase(x, y *Term) bool {
+	set := map[int]bool{}
+	var walk func(t *Term, d int, f func(*Term))
+	walk = func(t *Term, d int, f func(*Term)) {
+		if d < 8 && (t.op == "bvadd" || t.op == "bvsub") {
+			walk(t.args[0], d+1, f)
+			walk(t.args[1], d+1, f)
+			return
+		}
+		f(t)
+	}
+	walk(x, 0, func(t *Term) { set[t.id] = true })
+	found := false
+	walk(y, 0, func(t *Term) {
+		if set[t.id] && !t.IsConst() {
+			found = true
+		}
+	})
+	return found
+}
+// Mul keeps products in "sum of monomials" form: a product with a symbolic factor is
+// distributed over sums, differences and ite (identities of modular arithmetic), so that
+// the solvers see each monomial as one atom and the rest is linear.
+func (c *TermCtx) Mul(a, b *Term) *Term {
+	if a.IsConst() || b.IsConst() {
+		return c.bvbin("bvmul", a, b)
+	}
+	return c.mulDist(a, b, 0)
+}
+
+func (c *TermCtx) mulDist(a, b *Term, depth int) *Term {
+	if a.IsConst() || b.IsConst() || depth > 6 {
+		return c.mulAtom(a, b)
+	}
+	for k := 0; k < 2; k++ {
+		x, y := a, b
+		if k == 1 {
+			x, y = b, a
+		}
+		switch x.op {
+		case "bvadd":
+			return c.Add(c.mulDist(x.args[0], y, depth+1), c.mulDist(x.args[1], y, depth+1))
+		case "bvsub":
+			return c.Sub(c.mulDist(x.args[0], y, depth+1), c.mulDist(x.args[1], y, depth+1))
+		case "bvneg":
+			return c.Neg(c.mulDist(x.args[0], y, depth+1))
+		case "ite":
+			if x.args[1].IsConst() || x.args[2].IsConst() {
+				return c.Ite(x.args[0], c.mulDist(x.args[1], y, depth+1), c.mulDist(x.args[2], y, depth+1))
+			}
+		}
+	}
+	return c.mulAtom(a, b)
+}
+
+func (c *TermCtx) mulAtom(a, b *Term) *Term {
+	if !a.IsConst() && !b.IsConst() && a.id > b.id {
+		a, b = b, a
+	}
+	return c.bvbin("bvmul", a, b)
+}
 func (c *TermCtx) SDiv(a, b *Term) *Term { return c.bvbin("bvsdiv", a, b) }
 func (c *TermCtx) SRem(a, b *Term) *Term { return c.bvbin("bvsrem", a, b) }
 func (c *TermCtx) UDiv(a, b *Term) *Term { return c.bvbin("bvudiv", a, b) }
